@@ -74,6 +74,19 @@ for x in %(items)r:
 sub.close()
 channel.gateway.execmodel.sleep(0.3)
 """
+W_BOTH_DROP_CB = """
+import evh.pair as _p
+sub = channel.gateway.newchannel()
+def cb(x, tag=%(tag)r):
+    _p.CURRENT.worker_notes.append((tag, 'wcb', x))
+sub.setcallback(cb, endmarker='W-END')
+channel.send(sub)
+for x in %(items)r:
+    sub.send(x)
+del sub                                   # this side only keeps its callback registration
+channel.receive()                         # the initiator says when it has dropped its end, too
+channel.gateway.execmodel.sleep(0.5)
+"""
 W_CONSUME = """
 got = []
 for i in range(%(n)d):
@@ -190,6 +203,8 @@ def gen_conversation(rng, kinds, tag):
         c["keep"] = rng.choice([0, 1])
         if rng.random() < 0.4:
             c["exc"] = rng.choice(["badstr", "sysexit"])
+    elif kind == "both_drop_cb":
+        c["items"] = gen_items(rng, rng.randint(0, 3), big=False)
     elif kind == "subchannel_dropped":
         c["items"] = gen_items(rng, rng.randint(0, 3), big=False)
     elif kind == "halfclose":
@@ -221,6 +236,8 @@ def worker_source(c):
         return W_CONSUME_UNTIL_EOF % {"tag": c["tag"]}
     if k == "callback_raises":
         return W_CALLBACK_RAISES % {"tag": c["tag"], "bad": c["bad"], "keep": c["keep"], "raise_": CB_RAISES[c.get("exc", "plain")]}
+    if k == "both_drop_cb":
+        return W_BOTH_DROP_CB % {"tag": c["tag"], "items": c["items"]}
     if k == "subchannel_dropped":
         return W_SUBCHANNEL_DROPPED % {"items": c["items"]}
     if k == "halfclose":
@@ -514,6 +531,28 @@ def run_program(prog, chooser, seed, line_budget=0, cut_w2i=None, remote_backend
                 o["outer"] = "closed"
             except Exception as e:  # noqa
                 o["outer"] = type(e).__name__
+        elif k == "both_drop_cb":
+            # both ends register a callback on the sub-channel and then drop their Channel object: each __del__ tells the other side
+            # (LAST_MESSAGE), which forgets the id and hands its callback the endmarker
+            try:
+                sub = ch.receive(timeout=20)
+            except Exception as e:  # noqa
+                o["end"] = "no-subchannel:" + type(e).__name__
+                return
+            o["got"] = []
+            sub.setcallback(o["got"].append, endmarker=("END",))
+            o["subid"] = sub.id
+            del sub
+            import gc
+
+            gc.collect()
+            pr.em_i.sleep(0.5)
+            try:
+                ch.send("dropped")
+                ch.waitclose(timeout=20)
+                o["end"] = "closed"
+            except Exception as e:  # noqa
+                o["end"] = type(e).__name__
         elif k == "subchannel_dropped":
             box = []
             ch.setcallback(box.append, endmarker=("END",))
@@ -795,7 +834,7 @@ def check_conversation(ck, prefix, c, o, out, ex, lossy=False):
             ck.fail(prefix + "channel-id-parity-wrong", ex)
 
 
-ALL_KINDS = ["produce", "produce_raise", "consume", "consume_eof", "callback_raises", "subchannel", "halfclose", "subchannel_dropped"]
+ALL_KINDS = ["produce", "produce_raise", "consume", "consume_eof", "callback_raises", "subchannel", "halfclose", "subchannel_dropped", "both_drop_cb"]
 
 
 def run_property(prop, tier, seed, replay, kinds_weight, prefix_filter, rule, assumptions, nprog_quick=140, extra=None):
